@@ -1024,6 +1024,20 @@ func (ex *Exec) exec(st *State, fr *Frame, instr ssa.Instruction) {
 		st.set(fr, in, IfaceV{T: in.X.Type(), V: st.get(fr, in.X)})
 		fr.IP++
 	case *ssa.MakeMap:
+		if in.Reserve != nil {
+			// make(map[K]V, n): the runtime sizes the bucket array from the hint (a negative or absurd hint is
+			// ignored by the runtime, everything in between is really allocated)
+			n := ex.toInt64(st.get(fr, in.Reserve).(*Term), in.Reserve.Type())
+			if !n.IsConst() {
+				if !st.decide(ex.Ctx.Sle(n, ex.i64(int64(ex.allocLimit())))) {
+					if st.decide(ex.Ctx.Sle(n, ex.i64(1<<40))) {
+						ex.wildAlloc(st, n)
+					}
+				}
+			} else if int64(n.V) > 1<<22 && int64(n.V) < 1<<40 {
+				ex.wildAlloc(st, n)
+			}
+		}
 		st.set(fr, in, st.newMap(in.Type()))
 		fr.IP++
 	case *ssa.MakeSlice:
